@@ -16,17 +16,19 @@ META = dict(
               "(exactly where all intermediates are short dyadics, 1e-10 relative otherwise). Free/ball joints: "
               "QuatStep behaviours replayed, unit norm and the exact translational update required.",
     text="For 1-dof slide-joint systems (mass, spring, damper, applied force, one actuator with affine gain/bias, "
-         "none/integrator/filter dynamics, actrange, ctrlrange, actearly, gear, reflected damping/armature) and every "
+         "none/integrator/filter/filterexact dynamics, actrange, ctrlrange, actearly, gear, reflected damping/armature) and every "
          "integrator x eulerdamp/damper/spring/actuation/disabled-group flag combination on the lattice, mj_step "
          "produces exactly the qpos, qvel, act, time (and qacc, act_dot, actuator_force, qfrc_actuator, qfrc_passive) "
          "of Integrators.tla; free and ball joint quaternions stay unit-norm under all four integrators.",
     note="Trusted: TLC, harness law_drv.cc, the model description generated from the step's parameters, the reading of "
          "doc/computation 'Numerical integration' in Integrators.tla. Coupled multi-dof trees, constraints, muscles, "
-         "filterexact and the accuracy of quaternion integration are not decided.",
+         "dcmotor activation slots and the accuracy of quaternion integration are not decided; the filterexact activation away "
+         "from its clamp is compared against a rational enclosure of exp (width <= 1e-5), on the clamp exactly.",
     ref="DESIGN.md section 4 C05")
 
 INTEG = {"Euler": 0, "RK4": 1, "implicit": 2, "implicitfast": 3}
-DYN = {"none": 0, "integrator": 1, "filter": 2}
+DYN = {"none": 0, "integrator": 1, "filter": 2, "filterexact": 3}
+STATEFUL = ("integrator", "filter", "filterexact")
 OBS = "time,qpos,qvel,act,qacc,act_dot,actuator_force,qfrc_actuator,qfrc_passive"
 
 
@@ -120,7 +122,7 @@ class Replayer:
         optlines = ["optset 0 timestep %s" % L.num(p["h"]), "optset 0 integrator %d" % INTEG[p["integ"]],
                     "optset 0 disableflags %d" % opt[2], "optset 0 disableactuator %d" % opt[3]]
         has_u = a["dyn"] != "off"
-        has_w = a["dyn"] in ("integrator", "filter")
+        has_w = a["dyn"] in STATEFUL
         for si, ev in enumerate(beh):
             if si == 0:
                 s = ev["pre"]
@@ -146,25 +148,36 @@ class Replayer:
 
 
 def expectations(ev):
-    """(field, index, expected Fraction) of one completed step, in comparison order"""
+    """(field, expected Fraction, upper end of the expected enclosure) of one completed step, in comparison order;
+    the two ends differ only for the activation of a filterexact actuator away from its clamp (the specification
+    carries exp(-h/tau) as a rational enclosure)"""
     a, post, fw = ev["act"], ev["post"], ev["fw"]
-    ex = [("time", post["t"]), ("qvel", post["v"]), ("qpos", post["q"])]
-    if a["dyn"] in ("integrator", "filter"):
-        ex.append(("act", post["w"]))
-        ex.append(("act_dot", fw["wdot"]))
-    ex += [("qacc", fw["qacc"]), ("qfrc_passive", fw["pas"])]
+    ex = [("time", post["t"], post["t"]), ("qvel", post["v"], post["v"]), ("qpos", post["q"], post["q"])]
+    if a["dyn"] in STATEFUL:
+        ex.append(("act", post["w"], post["wh"]))
+        ex.append(("act_dot", fw["wdot"], fw["wdot"]))
+    ex += [("qacc", fw["qacc"], fw["qacc"]), ("qfrc_passive", fw["pas"], fw["pas"])]
     if a["dyn"] != "off":
-        ex += [("actuator_force", fw["af"]), ("qfrc_actuator", fw["qa"])]
-    return [(f, L.fr(v)) for f, v in ex]
+        ex += [("actuator_force", fw["af"], fw["af"]), ("qfrc_actuator", fw["qa"], fw["qa"])]
+    return [(f, L.fr(v), L.fr(vh)) for f, v, vh in ex]
+
+
+def inside(got, lo, hi):
+    """implementation double inside the enclosure [lo, hi] of the specification (1e-10 slack)"""
+    if got != got or got in (float("inf"), float("-inf")):
+        return False
+    g = L.Fraction(got)
+    return lo - L.REL_TOL * max(1, abs(lo)) <= g <= hi + L.REL_TOL * max(1, abs(hi))
 
 
 def first_mismatch(ev, obs, perturb=None):
-    for f, want in expectations(ev):
+    for f, want, hi in expectations(ev):
         if perturb and f == perturb[0]:
-            want = want + perturb[1]
+            want, hi = want + perturb[1], hi + perturb[1]
         got = obs.get(f)
-        if not got or len(got) != 1 or not L.close(got[0], want, ev["exact"]):
-            return f, want, (got[0] if got else None)
+        ok = bool(got) and len(got) == 1 and (L.close(got[0], want, ev["exact"]) if hi == want else inside(got[0], want, hi))
+        if not ok:
+            return f, want, (got[0] if got else None), hi
     return None
 
 
@@ -193,25 +206,26 @@ def judge(ctx, rp, r, setup_models):
             continue
         mm = None
         if obs is None:
-            mm = ("harness", None, line if line is not None else r.crash_text())
+            mm = ("harness", L.Fraction(0), line if line is not None else r.crash_text(), L.Fraction(0))
         else:
             mm = first_mismatch(ev, obs)
         if mm is None:
             continue
         bad_beh.add(bi)
-        f, want, got = mm
+        f, want, got, whi = mm
         sig = "step:%s:%s" % (f, feature(p, a, ev["u"]))
         what = ("mj_step with %s (h=%s m=%s k=%s b=%s f=%s act=%s flags=%d) from q=%s v=%s act=%s ctrl=%s, step %d of the "
                 "behaviour: %s = %r, Integrators.tla says %s (%s comparison)" % (
                     p["integ"], L.fr(p["h"]), L.fr(p["m"]), L.fr(p["k"]), L.fr(p["b"]), L.fr(p["f"]), p["act"], flags(p),
-                    L.fr(ev["pre"]["q"]), L.fr(ev["pre"]["v"]), L.fr(ev["pre"]["w"]), L.fr(ev["u"]), si + 1, f, got, want,
-                    "exact" if ev["exact"] else "1e-10"))
+                    L.fr(ev["pre"]["q"]), L.fr(ev["pre"]["v"]), L.fr(ev["pre"]["w"]), L.fr(ev["u"]), si + 1, f, got,
+                    want if whi == want else "[%s, %s] (enclosure of exp)" % (float(want), float(whi)),
+                    "enclosure" if whi != want else "exact" if ev["exact"] else "1e-10"))
         script = ["lmodel 0"] + model_lines(p, a) + ["end", "ldata 0 0"] + optlines + \
                  [x.replace("st %d " % rp.slots[(p["m"], p["k"], p["b"], p["act"])], "st 0 ", 1)
                    .replace("stk %d" % rp.slots[(p["m"], p["k"], p["b"], p["act"])], "stk 0", 1)
                    .replace("sobs %d " % rp.slots[(p["m"], p["k"], p["b"], p["act"])], "sobs 0 ", 1) for x in mine]
         ctx.violation(sig, what, {"script": script, "field": f, "want": [want.numerator, want.denominator],
-                                  "exact": ev["exact"]})
+                                  "want_hi": [whi.numerator, whi.denominator], "exact": ev["exact"]})
     return nstep, bad_beh
 
 
@@ -297,6 +311,7 @@ def run(ctx):
         "sim": ("sim", "Integrators_Sim", 150 if q else 1500, 40),
         "quat": ("dumpq", "FreeBody_MC" if q else "FreeBody_Deep"),
         "neg1": ("neg", "Integrators_Neg1"),
+        "neg3": ("neg", "Integrators_Neg3"),
         "neg2": ("neg", None if q else "Integrators_Neg2"),
     }
     to = 240 if q else 1500
@@ -311,7 +326,7 @@ def run(ctx):
             return L.dump_evs("FreeBody", j[1], want=("quat",), timeout=to)
         return L.simulate_evs("Integrators", j[1], num=j[2], depth=j[3], seed=ctx.seed + 5, timeout=to)
 
-    with cf.ThreadPoolExecutor(6) as ex:
+    with cf.ThreadPoolExecutor(7) as ex:
         futs = {n: ex.submit(go, n) for n in jobs if jobs[n][1]}
         out = {n: (futs[n].result() if n in futs else None) for n in jobs}
     for k in ("mc", "act", "sim", "quat"):
@@ -319,6 +334,7 @@ def run(ctx):
             ctx.tlc_ok(out[k][0], jobs[k][1])
     # TLC-level negative controls: wrong schemes must violate the specification's invariants
     L.negative_record(ctx, out["neg1"], "spec variant 'position integrated with the old velocity' violates SemiImplicit")
+    L.negative_record(ctx, out["neg3"], "spec variant 'filterexact activation not clamped to actrange' violates ActInRange")
     if out["neg2"] is not None:
         L.negative_record(ctx, out["neg2"], "spec variant 'RK 3/8 weights' violates RK4Taylor")
     singles = [e for k in ("mc", "act") if out[k] for e in out[k][1] if e["op"] == "step"]
@@ -383,7 +399,8 @@ def replay(ctx, rp):
             ctx.violation(rp["signature"], rp["what"], d)
         return
     want = L.Fraction(d["want"][0], d["want"][1])
+    whi = L.Fraction(*d["want_hi"]) if d.get("want_hi") else want
     got = obs.get(d["field"]) if obs else None
-    print("field %s: want %s got %r" % (d["field"], want, got))
-    if not got or not L.close(got[0], want, d["exact"]):
+    print("field %s: want %s%s got %r" % (d["field"], want, "" if whi == want else " .. %s" % whi, got))
+    if not got or not (L.close(got[0], want, d["exact"]) if whi == want else inside(got[0], want, whi)):
         ctx.violation(rp["signature"], rp["what"], d)
